@@ -12,6 +12,7 @@ input of the model, DESIGN 3.2), and the program.  Compared: result/exception cl
 log, `Problem.failed`, and vector/state/costs/costs_signed of every design object.
 """
 import contextlib
+import time
 import fractions
 import io
 import itertools
@@ -114,6 +115,10 @@ def make_problem(case0):
                 cs = list(costs_of(self.v_case, v)[0])
             if o == "o":
                 return cs
+            if o in TRANSIENT and getattr(self, "v_parallel", False):
+                # parallel batch: a failing attempt takes a moment, so that the attempts of designs handled by different
+                # workers overlap in time (each design has its own budget of five attempts, whatever the others do)
+                time.sleep(0.002)
             if o in TRANSIENT:
                 raise TRANSIENT[o][(key + n) % len(TRANSIENT[o])]("scripted transient failure")
             raise FATAL[int(o[1:])]("scripted fatal failure")
@@ -185,10 +190,13 @@ def drive(case):
                         continue
                 algo.options["max_processes"] = 1 if op[0] == "b" else step[2]
                 exc = None
+                problem.v_parallel = op[0] != "b"
                 try:
                     algo.evaluate([problem.v_objs[k] for k in ks])
                 except Exception as e:      # noqa
                     exc = e
+                finally:
+                    problem.v_parallel = False
                 results.append((op, classify(exc)))
                 cmds.append("b:" + vec(ks))
             elif op == "scalar":
@@ -703,6 +711,10 @@ def gen_scalar_case(rng, kind, pool=None):
     if kind == "scalar":
         for _ in range(rng.randint(1, 5)):
             case["program"].append(["scalar", gen_vec(rng, case)])
+    elif kind == "bigsweep":
+        # sizes around multiples of the default population size (100): "exactly the generator's designs" whatever the size
+        n = rng.choice([99, 100, 101, 130, 199, 200, 201, 257, 300, 301]) if rng.random() < 0.8 else rng.randint(90, 420)
+        case["program"].append(["sweep", [gen_vec(rng, case) for _ in range(n)]])
     elif kind == "sweep":
         for _ in range(rng.randint(1, 2)):
             vs = [gen_vec(rng, case) for _ in range(rng.randint(0, 6))]
@@ -739,6 +751,7 @@ def run(ctx):
         return
     spool = [gen_scalar_problem(rng) for _ in range(30 if ctx.quick else 300)]
     for kind, n in (("scalar", 60 if ctx.quick else 2000), ("sweep", 60 if ctx.quick else 2000),
+                    ("bigsweep", 6 if ctx.quick else 60),
                     ("scipy", 12 if ctx.quick else 200), ("nlopt", 12 if ctx.quick else 200)):
         if not run_stream(ctx, "c05.run", [gen_scalar_case(rng, kind, spool) for _ in range(n)], kind):
             return
